@@ -275,7 +275,8 @@ struct MemWorld : World
     int nsbx = (int)r.range(1, 4);
     int slots = r.chance(1, 3) ? 2 : 8;
     int mmu = r.chance(1, 3) && logsz <= 16;
-    p.cfg = { logsz, registry, nsbx, slots, mmu };
+    int reuse = r.chance(1, 3);
+    p.cfg = { logsz, registry, nsbx, slots, mmu, reuse };
     int64_t size = 1LL << logsz;
     int n = (int)r.range(6, thorough ? 60 : 45);
     // op-mix (swarm): base weights then random muting
@@ -334,7 +335,7 @@ struct MemWorld : World
       switch (o.kind) {
         case L_CREATE:
           o.a[1] = (int64_t)r.below(2); // lib
-          o.a[2] = r.chance(1, 8); // F6
+          o.a[2] = r.chance(1, 8) ? (int64_t)r.range(1, 2) : 0; // F6: fails at once / fails after reserving memory
           break;
         case L_MALLOC:
           o.a[1] = (int64_t)r.below(T_COUNT);
@@ -360,6 +361,11 @@ struct MemWorld : World
           o.a[1] = (int64_t)r.below(4);
           break;
         case P_FIELD_ADDR:
+          o.a[1] = (int64_t)r.below(9);
+          o.a[3] = r.chance(1, 2) ? (int64_t)r.below(8) : interesting_n(r); // index into a fixed array field
+          o.a[4] = (int64_t)r.below(5);
+          o.a[5] = (int64_t)r.below(3);
+          break;
         case P_LOAD_FIELD:
         case P_LOAD_STRUCT:
         case P_STORE_FIELD:
@@ -580,7 +586,7 @@ struct MemWorld : World
     int lib = (int)(op.a[1] & 1);
     bool inject = op.a[2] != 0;
     if (inject)
-      g_fault.create_fail = 1;
+      g_fault.create_fail = op.a[2] == 2 ? 2 : 1;
     bool ret = false;
     Outcome o = attempt([&] { ret = st.sb->create_sandbox(lib); });
     g_fault.create_fail = 0;
@@ -607,6 +613,8 @@ struct MemWorld : World
         if (ret)
           C->violate("C14", "failed_backend_create_reported_success@create", "sandbox #%d", s);
         st.state = 2;
+        if (op.a[2] == 2 && st.impl()->rem_size)
+          st.stale_pcell = st.impl()->rem_base + 64; // an address in the memory the failed create had reserved
         return;
       }
       if (!ret) {
@@ -983,22 +991,33 @@ struct MemWorld : World
       else
         check_ptr(s, (uintptr_t)q.UNSAFE_unverified(), "probe_registry");
     } else if (st.stale_pcell) {
-      // address inside the former region of a destroyed incarnation
+      // address inside the former region of a destroyed incarnation / of a create that failed after reserving
+      // memory: the registry must answer with whichever LIVE sandbox owns that address now (regions may be
+      // reused), or with none - never with an object that is not created
+      const LiveRegion* owner = region_of((void*)st.stale_pcell);
       uint64_t before = Sbx::n_registry;
       Sbx::last_registry_inst = -2;
       auto stale = reinterpret_cast<rlbox::tainted_volatile<int*, Sbx>*>(st.stale_pcell);
+      // make sure the cell is non-zero so that a translation (and hence a lookup) happens
+      PT one = 8;
+      uint8_t* gview = owner ? ((Sbx*)owner->inst)->mem.gbase + (st.stale_pcell - owner->base) : (uint8_t*)st.stale_pcell;
+      memcpy(gview, &one, sizeof one);
       TP<int> q = nullptr;
       Outcome o = attempt([&] { q = *stale; });
       (void)o;
       if (Sbx::n_registry == before)
         return;
-      C->probe("registry_consulted_for_destroyed_sandbox");
-      if (Sbx::last_registry_inst != -1)
+      C->probe(st.state == 2 ? "registry_consulted_for_failed_create" : "registry_consulted_for_destroyed_sandbox");
+      if (owner)
+        C->probe("former_region_reused_by_live_sandbox");
+      int want = owner ? owner->id : -1;
+      if (Sbx::last_registry_inst != want)
         C->violate("C14",
-                   "destroyed_sandbox_still_found@probe_registry",
-                   "example address in former region of #%d: registry answered inst %d",
+                   st.state == 2 ? "failed_create_found_in_registry@probe_registry" : "destroyed_sandbox_still_found@probe_registry",
+                   "example address in the former region of #%d: registry answered inst %d, the live owner of that address is %d",
                    s,
-                   Sbx::last_registry_inst);
+                   Sbx::last_registry_inst,
+                   want);
     }
   }
 
@@ -1174,9 +1193,17 @@ struct MemWorld : World
     auto& t = std::get<TP<SimNode>>(h->v);
     if (haddr(*h) == 0)
       C->probe("field_addr_on_null_pointer");
-    int f = (int)((uint64_t)op.a[1] % 7);
+    int f = (int)((uint64_t)op.a[1] % 9);
     Outcome o = attempt([&] {
       switch (f) {
+        case 7:
+          // element of a fixed array field, index of any integer type and wrapper form (bounds-checked: abort or in range)
+          with_n(s, (int)((uint64_t)op.a[4] % 5), (int)((uint64_t)op.a[5] % 3), op.a[3], [&](auto& nv) { push<char>(s, &t->name[nv], "field_addr"); });
+          C->probe("fixed_array_field_indexed_with_arbitrary_integer");
+          break;
+        case 8:
+          with_n(s, (int)((uint64_t)op.a[4] % 5), (int)((uint64_t)op.a[5] % 3), op.a[3], [&](auto& nv) { push<int*>(s, &t->ptrs[nv], "field_addr"); });
+          break;
         case 0:
           push<char>(s, rlbox::sandbox_reinterpret_cast<char*>(&t->tag), "field_addr");
           break;
@@ -1385,7 +1412,7 @@ struct MemWorld : World
     for (int i = 0; i < 3; i++)
       ok = ok && norm(before.ptrs[i]) == after.ptrs[i];
     bool nullok = (before.next == 0) == (after.next == 0) && (before.data == 0) == (after.data == 0);
-    if (!ok && doff != soff)
+    if (!ok && (doff > soff ? doff - soff : soff - doff) >= sizeof(GNode))
       C->violate("C04", std::string(nullok ? "wrong_representation@" : "null_not_preserved@") + "store_struct", "pointer fields of a struct copied sandbox->app->sandbox changed representation");
   }
 
@@ -1689,6 +1716,8 @@ struct MemWorld : World
     auto& ta = std::get<TP<SimNode>>(a->v);
     auto& tb = std::get<TP<SimNode>>(b->v);
     uint32_t aoff = (uint32_t)(haddr(*a) - st.base()), boff = (uint32_t)(haddr(*b) - st.base());
+    if ((aoff > boff ? aoff - boff : boff - aoff) < sizeof(GNode))
+      return; // overlapping objects: the expected destination content is not defined by the source alone
     PT before[3];
     memcpy(before, st.impl()->gptr(aoff + (uint32_t)offsetof(GNode, ptrs)), sizeof before);
     bool direct = (op.a[2] & 1) != 0; // volatile -> volatile array assignment without passing through the application
@@ -1806,6 +1835,7 @@ struct MemWorld : World
     Sbx::cfg.slots = p.cfg.size() > 3 && p.cfg[3] >= 1 && p.cfg[3] <= 64 ? (int)p.cfg[3] : 8;
     Sbx::n_registry = 0;
     Sbx::cfg.mmu = p.cfg.size() > 4 && p.cfg[4] && logsz <= 16;
+    Sbx::cfg.reuse = p.cfg.size() > 5 && p.cfg[5];
     c.ev("cfg size=2^%d registry=%d nsbx=%d slots=%d mmu=%d", logsz, (int)registry, nsbx, Sbx::cfg.slots, (int)Sbx::cfg.mmu);
     S.clear();
     H.clear();
